@@ -106,6 +106,24 @@ PROPS["C20"] = {
     "assumptions": ["adversaries fabricate at most 40 ids per operation"],
 }
 
+STACKS = ["sim", "mem", "frag/sim", "frag/mem", "mbapp/sim", "mbapp/mem",
+          "mux-string/sim", "mux-varint/mem", "mux-u16/sim", "mux-u32/mem", "mux-u64/sim",
+          "askmux-string/mem", "askmux-varint/mbapp/sim", "multi/mem+sim", "multi/mbapp/mem+mbapp/sim",
+          "map/sim", "map/frag/mem", "wl/mbapp/sim", "wl/mem",
+          "p2pke/sim", "p2pke/mem", "frag/p2pke/sim", "mux-string/frag/p2pke/sim", "mbapp/p2pke/sim",
+          "frag/frag/sim", "mbapp/frag/mem", "mux-varint/mux-string/sim"]
+
+PROPS["C01"] = {
+    "pkg": "stk", "env": {"SIM_PROP": "C01"}, "legs": STACKS,
+    "runs": {"quick": 2700, "thorough": 200000}, "budget": {"quick": 200, "thorough": 2400},
+    "rule": "one run = one seed = one stack of the catalogue (27 stacks: every swarm implementation except QUIC/SSH/UDP and nestings up to depth 4, over the simulated network and over the real in-memory swarm) on 2-4 nodes with 1-3 concurrent senders and receivers per node, ledger payloads of boundary-biased lengths 0..MTU, random IOVec splits, buffers poisoned after Tell; network drop/duplicate/reorder (corruption only beneath P2PKE) and all task interleavings drawn from the seed; "
+            "non-trivial = at least one delivery was checked, at least one fault fired and several tasks were runnable at once; distinct = distinct scheduler decision traces",
+    "components": TIER_A,
+    "level_text": "seeded exploration of schedules and network faults over real swarm stacks; every delivered message is compared with a ledger of everything told (exact bytes, right node, sender's and receiver's addresses), sender buffers are checked when Tell returns",
+    "level_note": "trusted: instrumenter, scheduler, simulated network, ledger oracle; QUIC, SSH and UDP stacks are not in this leg",
+    "assumptions": ["payload bodies are random, not adversarially chosen per layer", "duplicates are not flagged (the statement forbids wrong content and attribution, not repetition)"],
+}
+
 NOT_APPLICABLE = {
     "C17": "pure functions of their input (key/peer-id marshal, parse, equality, fingerprint): no schedule, clock, fault or second party for a simulator to vary; see DESIGN.md §7",
 }
